@@ -1,7 +1,8 @@
-(* C40 proofs, crash half: the in-place rewrite of the catalog file loses the catalog at every
-   crash point between the truncation and the last byte of the body (for all catalogs), is
-   harmless outside those points, and the write-temp / sync / rename protocol leaves the old or
-   the new file at every crash point in both crash modes (Model/CatalogDisk.v). *)
+(* C40 proofs, crash half (Model/CatalogDisk.v): the write-temp / sync / rename protocol that
+   CatalogPersistence::save follows since /repo 5a0cf56 leaves the old or the new file at every
+   crash point in both crash modes; historical: the in-place rewrite it replaced lost the catalog
+   at every crash point between the truncation and the last byte of the body (for all catalogs)
+   and was harmless outside those points. *)
 From Coq Require Import ZArith List Bool Lia ZifyBool.
 From TV Require Import Lib.MachInt Lib.MachIntFacts Model.Catalog Model.CatalogDisk Proof.Catalog.
 Import ListNotations.
@@ -56,7 +57,7 @@ Proof.
     rewrite firstn_app. rewrite (firstn_all2 h) by lia. replace (length h + j - length h)%nat with j by lia. reflexivity.
 Qed.
 
-(* C40, crash half, as the code is: a crash anywhere between the truncation and the last byte of
+(* historical (before /repo 5a0cf56): a crash anywhere between the truncation and the last byte of
    the body leaves a catalog file that does not load -- for EVERY old and new catalog *)
 Theorem inplace_crash_unloadable_l c_new h b old k j :
   save_parts c_new = Some (h, b) -> file_fits c_new = true -> inside_rewrite h b k j = true ->
@@ -80,7 +81,7 @@ Proof.
   - right. apply Nat.ltb_ge in Hin. rewrite firstn_all2 by exact Hin. reflexivity.
 Qed.
 
-(* ------------------------------------------------------------------ the repair: write temp, sync, rename *)
+(* ------------------------------------------------------------------ the code as it is: write temp, sync, rename *)
 Ltac pl_cases H :=
   unfold pl_view in H; destruct H as [m0 H];
   destruct m0 as [|[|[|m0]]]; cbn in H;
@@ -193,8 +194,8 @@ Qed.
 (* ------------------------------------------------------------------ non-vacuity (used by Props/C40.v) *)
 Lemma c40_hypotheses_satisfiable_l :
   wf_catalog ex_new = true /\ file_fits ex_new = true /\ codec_class ex_new = 0
-  /\ wf_catalog ex_expr_catalog = true /\ builtin_only ex_expr_catalog = true /\ catalog_plain ex_expr_catalog = false
-  /\ wf_catalog ex_user_catalog = true /\ has_user_schema ex_user_catalog = true
+  /\ wf_catalog ex_expr_catalog = true /\ builtins_ok ex_expr_catalog = true /\ catalog_plain ex_expr_catalog = false
+  /\ wf_catalog ex_user_catalog = true /\ file_fits ex_user_catalog = true /\ codec_class ex_user_catalog = 0
   /\ (exists h b, save_parts ex_new = Some (h, b)
         /\ inside_rewrite h b 1 0 = true /\ inside_rewrite h b 2 17 = true
         /\ inside_rewrite h b 0 0 = false /\ inside_rewrite h b 3 0 = false
@@ -204,7 +205,7 @@ Lemma c40_hypotheses_satisfiable_l :
 Proof.
   split; [vm_compute; reflexivity|]. split; [vm_compute; reflexivity|]. split; [vm_compute; reflexivity|].
   split; [vm_compute; reflexivity|]. split; [vm_compute; reflexivity|]. split; [vm_compute; reflexivity|].
-  split; [vm_compute; reflexivity|]. split; [vm_compute; reflexivity|].
+  split; [vm_compute; reflexivity|]. split; [vm_compute; reflexivity|]. split; [vm_compute; reflexivity|].
   split; [|split; [|vm_compute; reflexivity]].
   - destruct (save_parts ex_new) as [[h b]|] eqn:E; [|vm_compute in E; discriminate E].
     exists h, b. vm_compute in E. injection E as <- <-.
